@@ -27,7 +27,10 @@ Print Assumptions C04_packet_is_occurrence.
 
 (* poll(): the request's own class/id, decoded as its declared response type; for configuration
    class, an ACK-ACK naming the request was delivered after the response *)
-Theorem C04_poll_safe : forall E (B : backend E) sk fuel rq w f,
+(* (The ACK-ACK class must be the library's own: with a foreign class registered under the ACK
+   class/id the last clause is false — RequestSafe.Counterexample.poll_safe_counterexample.) *)
+Theorem C04_poll_safe : forall E (B : backend E) sk fuel rq w f nm,
+  reg_lookup (sreg (wsrv w)) CID_ACK = Some (nm, ack_kind) ->
   fst (do_request B sk fuel RPoll rq w) = Return (Some f) ->
   let w' := snd (do_request B sk fuel RPoll rq w) in
   rf_cid f = rq_cid rq /\ rf_name f = fst (rq_resp rq)
@@ -38,7 +41,7 @@ Theorem C04_poll_safe : forall E (B : backend E) sk fuel rq w f,
         /\ queue (process (fresh (Some (poll_filter (rq_cid rq)))) stream)
            = q1 ++ [Pkt (fst (rq_cid rq)) (snd (rq_cid rq)) (rf_payload f)] ++ q2 ++ [Pkt 5 1 pa] ++ q3
         /\ ack_names pa (rq_cid rq)).
-Proof. exact poll_safe. Qed.
+Proof. exact poll_safe_partial. Qed.
 Print Assumptions C04_poll_safe.
 
 (* set(): an ACK-ACK naming the request, or an ACK-NAK *)
